@@ -96,7 +96,7 @@ def run(rep, tier, replay=None):
     prog = facts.load("std")
     run_, oks, errs = decode_paths(prog, 14)
     prune_rule(rep, prog)
-    refresh_rule(rep, prog, oks)
+    tracker.alt_passes(rep, tier, oks, lambda: refresh_rule(rep, prog, oks))
     rep.assume("NOT decided: anything involving real elapsed time (clock monotonicity, the race between now() calls, scheduling): C15 is decided only as the structural skeleton above")
     rep.assume("an expired aircraft heard again is reported as added and starts empty: follows from C12 R1/R4 (or_default on vacancy)")
     return rep.finish(
